@@ -140,6 +140,41 @@ let spec_leg fam cmpname cap steps =
       tokjoin (steps_s @ [ header cap l ] @ q_s @ t_s
                @ [ join ("R" :: List.map b2s rel); "T"; contents s.oth ])
 
+(* flat_set with a stored comparator: s starts ascending, t descending, Compare() is ascending *)
+let dyn_legs cap steps =
+  let ops = List.map snd steps in
+  let start = init2 cmp_less cmp_greater in
+  let finish (cur : z cset) (oth : z cset) steps_s ask1 rel =
+    let lt = cur.cmp in
+    let desc = lt (z_of_int 1) (z_of_int 0) in
+    let q_s = List.map (fun q -> join [ "q"; ask1 (key_cut lt (z_of_int q)) ]) qs in
+    tokjoin (steps_s @ [ header cap cur.elems; join [ "D"; b2s desc ] ] @ q_s
+             @ [ join ("R" :: List.map b2s rel); "T"; contents oth.elems ]) in
+  let m =
+    try
+      let (s, trace) = unres (run2 cmp_less (nat_of_int cap) start ops) in
+      let rec zip codes tr =
+        match codes, tr with
+        | (c, _) :: cs, (o, l) :: ts -> tokjoin [ c; out_s FlatSet o; contents l ] :: zip cs ts
+        | _, _ -> [] in
+      let l = s.cur2.elems in
+      finish s.cur2 s.oth2 (zip steps trace)
+        (fun c -> answers_s (unres (ask FlatSet false c l)))
+        (unres (relations key_ltb (set_eq key_eqb FlatSet) l s.oth2.elems))
+    with Bad m -> m in
+  let p =
+    match s_run2 cmp_less (nat_of_int cap) start ops with
+    | None -> "na"
+    | Some (s, trace) ->
+        let rec zip codes tr =
+          match codes, tr with
+          | (c, _) :: cs, (o, l) :: ts -> tokjoin [ c; sout_s FlatSet o; contents l ] :: zip cs ts
+          | _, _ -> [] in
+        let l = s.cur2.elems in
+        finish s.cur2 s.oth2 (zip steps trace) (fun c -> answers_s (s_ask c l))
+          (s_relations key_eqb key_ltb l s.oth2.elems) in
+  (m, p)
+
 let run_case op t =
   let us = try String.index op '_' with Not_found -> raise Not_found in
   let fam = String.sub op 0 us in
@@ -158,6 +193,9 @@ let run_case op t =
       else let l = stable_sort_spec lt ks in
         join [ "ok"; zlist_s l; string_of_int (List.length l); b2s (l = []) ] in
     (m, p)
+  end else if fam = "fsd" then begin
+    let cap = next_int t in
+    dyn_legs cap (parse_steps t [])
   end else begin
     let cap = next_int t in
     let steps = parse_steps t [] in
